@@ -117,6 +117,7 @@ inductive Obs where
   | cbout (k : Nat) (o : Option Nat)
   | envCancel (c : Nat)
   | envCancelW (a : Nat)
+  | envErr (a e : Nat)
   | bo (r : BoRes)
   | exitcb (j : Nat) (e : Option Nat)
   | probeCtx (k : Nat) (cancelled : Bool)
@@ -139,6 +140,7 @@ inductive Ev where
   | envCancel (c : Nat)
   | envDo (c : Nat)
   | envCancelW (a : Nat)
+  | envErr (a e : Nat)
   | giveUp (n : Nat)
   | drained (n : Nat)
   | cbin (k n f arg root : Nat)
@@ -168,6 +170,7 @@ structure St where
   sval : Nat := 0
   sfn : Nat := 0
   wcx : List Nat := []             -- WaitExited calls whose context was cancelled
+  werr : List (Nat × Nat) := []    -- WaitExited call ↦ error code sent on its errCh (0: context.Canceled, or the channel was closed)
   lockq : List Obs := []           -- lines still to be logged by the running critical section
 deriving DecidableEq, Repr, Hashable
 
@@ -441,6 +444,21 @@ def timerBody (s : St) (t r : Nat) : St :=
     | none => s
   s1.bcastNow
 
+/-- what a parked `WaitExited` call that took the `ctx.Done()` / `errCh` branch of its select may return:
+context.Canceled if its context was cancelled or the error channel closed, else an error sent on the channel -/
+def wxOK (s : St) (a : Nat) (r : Res) : Bool :=
+  match r with
+  | .wx (some e) => (e == 0 && s.wcx.contains a) || s.werr.contains (a, e)
+  | _ => false
+
+theorem wxOK_wx {s : St} {a : Nat} {r : Res} (h : wxOK s a r = true) : ∃ e, r = .wx (some e) := by
+  cases r with
+  | wx o =>
+    cases o with
+    | some e => exact ⟨e, rfl⟩
+    | none => simp [wxOK] at h
+  | _ => simp [wxOK] at h
+
 /-- all events except `quiesce` -/
 def stepI (s : St) : Ev → Option St
   | .cfg c => if s.cfg.isNone then some { s with cfg := some c } else none
@@ -466,7 +484,7 @@ def stepI (s : St) : Ev → Option St
     match s.calls[a]? with
     | some c =>
       if c.st = .done r then some (setCall s a { c with st := .finished })
-      else if c.st = .wcancel ∧ r = .wx (some 0) then some (setCall s a { c with st := .finished })
+      else if c.st = .wcancel ∧ wxOK s a r = true then some (setCall s a { c with st := .finished })
       else none
     | none => none
   | .wake a =>
@@ -480,7 +498,7 @@ def stepI (s : St) : Ev → Option St
     match s.calls[a]? with
     | some c =>
       (match c.st with
-       | .parked _ => if s.wcx.contains a then some (setCall s a { c with st := .wcancel }) else none
+       | .parked _ => if s.wcx.contains a || s.werr.any (·.1 == a) then some (setCall s a { c with st := .wcancel }) else none
        | _ => none)
     | none => none
   -- the harness logs `env cancel c` *before* it calls the cancel function: the effect follows (`envDo`)
@@ -491,6 +509,14 @@ def stepI (s : St) : Ev → Option St
     match s.calls[a]? with
     | some c => (match c.op with
                  | .waitExited _ => some { s with wcx := a :: s.wcx }
+                 | _ => none)
+    | none => none
+  -- the harness logs `env errch a e` before it sends error `e` on (e = 0: closes, or sends context.Canceled on)
+  -- the error channel given to WaitExited call `a`
+  | .envErr a e =>
+    match s.calls[a]? with
+    | some c => (match c.op with
+                 | .waitExited _ => some { s with werr := (a, e) :: s.werr }
                  | _ => none)
     | none => none
   | .giveUp n =>
@@ -648,6 +674,7 @@ def Ev.obs : Ev → Option Obs
   | .cbout k o => some (.cbout k o)
   | .envCancel c => some (.envCancel c)
   | .envCancelW a => some (.envCancelW a)
+  | .envErr a e => some (.envErr a e)
   | .emit o => some o
   | .probeCtx k b => some (.probeCtx k b)
   | .probeW a b => some (.probeW a b)
@@ -662,6 +689,7 @@ def evsOf (s : St) : Obs → List Ev
   | .cbout k o => [.cbout k o]
   | .envCancel c => [.envCancel c]
   | .envCancelW a => [.envCancelW a]
+  | .envErr a e => [.envErr a e]
   | .bo r => [.emit (.bo r)]
   | .exitcb j e => [.emit (.exitcb j e)]
   | .probeCtx k b => [.probeCtx k b]
@@ -716,6 +744,7 @@ def Obs.parse : List String → Option Obs
   | ["cbout", k, e] => do pure (.cbout (← k.toNat?) (← pErr e))
   | ["env", "cancel", c] => do pure (.envCancel (← c.toNat?))
   | ["env", "cancelw", a] => do pure (.envCancelW (← a.toNat?))
+  | ["env", "errch", a, e] => do pure (.envErr (← a.toNat?) (← e.toNat?))
   | ["bo", "reset"] => some (.bo .reset)
   | ["bo", "stop"] => some (.bo .stop)
   | ["bo", "dur"] => some (.bo .dur)
